@@ -400,3 +400,76 @@ Theorem C17_fish_generate_nonvacuous :
 Proof. exact generate_fish_text_invariance_hyps. Qed.
 Print Assumptions C17_fish_generate_nonvacuous.
 (* ---- end fish generator model ---- *)
+
+(* ---- zsh generator model ---- *)
+(** Whole-script structure invariance for zsh, level 1 (shell words).  [Complete/ZshModel.v] is a byte-exact model of
+    clap_complete/src/aot/shells/zsh.rs (compared with the real generator's file on every run, streams [zsh-model] of
+    C16 and C17).  The file is a list of pieces: [Zx b] text the generator writes itself, [Zh t] a text written through
+    escape_help (help of an option or flag inside [...], about of a subcommand in a [_describe] item, tooltip of a possible
+    value inside "..."), [Zp t] the help of a positional written through the in-line replace chain after " -- " -- so
+    WHICH slot goes through WHICH escape is part of the model.  [ztame_cmd]: none of the bytes 34, 39, 92, 35 in any
+    command name, alias, option spelling, possible value, argument id or bin name.  [erase_desc] keeps only which texts are present. *)
+From ClapModel Require Import Complete.AotTree Complete.FishModel Complete.FishLexProofs Complete.ZshModel Complete.ZshProofs Complete.ZshLexProofs.
+
+(** the fixed text of the file does not depend on the description texts (every tree) *)
+Theorem C17_zsh_script_fixed_text : forall c d,
+  zsh_pieces c (erase_desc d) = option_map' (map zperase) (zsh_pieces c d).
+Proof. exact zsh_pieces_erase. Qed.
+Print Assumptions C17_zsh_script_fixed_text.
+
+(** every slot of the file of a tame tree is met by zsh's word lexer inside a single-quoted word, whatever the texts;
+    the file ends between words *)
+Theorem C17_zsh_script_slots_quoted : forall c d ps,
+  ztame_cmd c = true -> zsh_pieces c d = Some ps -> exists st, zrun ZB ps = Some st /\ zbare st = true.
+Proof. exact zsh_file_runs. Qed.
+Print Assumptions C17_zsh_script_slots_quoted.
+
+(** so every description text is word-internal data: the token skeleton of the file is that of the fixed text alone
+    ([zpskel]), and the level-1 payload -- what zsh hands to [_arguments] and [_describe] after quote removal -- is the
+    fixed payload plus, per slot, the level-1 image of the text ([zplits]: [zsh_l1] / [zsh_pos_l1], to which the level-2
+    theorems [C17_zsh_spec_description], [C17_zsh_spec_field], [C17_zsh_positional_field] apply) *)
+Theorem C17_zsh_script_texts_literal : forall c d,
+  ztame_cmd c = true -> forall ps, zsh_pieces c d = Some ps ->
+  exists s, zsh_script c d = Some s /\
+    skeleton (events sh_step ZB s) = zpskel ZB ps /\ lits (events sh_step ZB s) = zplits ZB ps /\
+    zbare (final sh_step ZB s) = true.
+Proof. exact zsh_texts_literal. Qed.
+Print Assumptions C17_zsh_script_texts_literal.
+
+(** the token skeleton and the final lexer state of the ENTIRE file are the same for any two assignments of description
+    texts with the same presence shape *)
+Theorem C17_zsh_script_same_skeleton : forall c d1 d2 s1,
+  ztame_cmd c = true -> erase_desc d1 = erase_desc d2 -> zsh_script c d1 = Some s1 ->
+  exists s2, zsh_script c d2 = Some s2 /\
+    skeleton (events sh_step ZB s1) = skeleton (events sh_step ZB s2) /\
+    final sh_step ZB s1 = final sh_step ZB s2.
+Proof. exact zsh_text_invariance. Qed.
+Print Assumptions C17_zsh_script_same_skeleton.
+
+(** the pair of files the harness generates for the oracle (texts as given / innocuous text of the same emptiness) *)
+Theorem C17_zsh_script_adversarial_innocuous : forall c d s1,
+  ztame_cmd c = true -> zsh_script c d = Some s1 ->
+  exists s2, zsh_script c (innocuous_desc d) = Some s2 /\
+    skeleton (events sh_step ZB s1) = skeleton (events sh_step ZB s2) /\
+    final sh_step ZB s1 = final sh_step ZB s2.
+Proof. exact zsh_adversarial_innocuous. Qed.
+Print Assumptions C17_zsh_script_adversarial_innocuous.
+
+(** satisfiable: the two-level tree of [C16_zsh_ok_nonvacuous] with quotes, [$(..)], backticks, brackets, colons and a
+    backslash in every slot against innocuous texts; both files exist and differ *)
+Theorem C17_zsh_script_nonvacuous :
+  ztame_cmd zx_root = true /\ erase_desc zl_adv = erase_desc zl_inn /\ zl_adv <> zl_inn /\
+  exists s1 s2, zsh_script zx_root zl_adv = Some s1 /\ zsh_script zx_root zl_inn = Some s2 /\ s1 <> s2.
+Proof. exact zsh_text_invariance_hyps. Qed.
+Print Assumptions C17_zsh_script_nonvacuous.
+
+(** class boundary: an option NAME with a single quote is written unescaped; it ends the quoted spec early and the help
+    behind it is read outside the quotes (recorded family [C17-names-unescaped]) *)
+Theorem C17_zsh_script_untamed_name_refuted :
+  exists c d1 d2 s1 s2,
+    ztame_cmd c = false /\ erase_desc d1 = erase_desc d2 /\
+    zsh_script c d1 = Some s1 /\ zsh_script c d2 = Some s2 /\
+    skeleton (events sh_step ZB s1) <> skeleton (events sh_step ZB s2).
+Proof. exact zsh_untamed_name_refuted. Qed.
+Print Assumptions C17_zsh_script_untamed_name_refuted.
+(* ---- end zsh generator model ---- *)
